@@ -12,7 +12,10 @@ import (
 	"github.com/spf13/afero"
 	grpcimport "github.com/yandex/pandora/components/grpc/import"
 	phttpimport "github.com/yandex/pandora/components/phttp/import"
+	"github.com/yandex/pandora/core"
+	"github.com/yandex/pandora/core/aggregator/netsample"
 	"github.com/yandex/pandora/core/config"
+	pregister "github.com/yandex/pandora/core/register"
 	"github.com/yandex/pandora/core/engine"
 	coreimport "github.com/yandex/pandora/core/import"
 	"github.com/yandex/pandora/lib/monitoring"
@@ -28,7 +31,21 @@ func importPlugins() {
 		coreimport.Import(fs)
 		phttpimport.Import(fs)
 		grpcimport.Import(fs)
+		// a gun for the generic json provider's ammo (*map[string]interface{}): holds the ammo for a moment
+		// and reports one sample tagged with the ammo's tag
+		pregister.Gun("verif/tag", func() core.Gun { return &tagGun{} })
 	})
+}
+
+type tagGun struct{ aggr core.Aggregator }
+
+func (g *tagGun) Bind(a core.Aggregator, _ core.GunDeps) error { g.aggr = a; return nil }
+func (g *tagGun) Shoot(a core.Ammo) {
+	t, _ := (*a.(*map[string]interface{}))["tag"].(string)
+	s := netsample.Acquire(t)
+	time.Sleep(200 * time.Microsecond)
+	s.SetProtoCode(200)
+	g.aggr.Report(s)
 }
 
 type poolSpec struct {
@@ -41,6 +58,10 @@ type poolSpec struct {
 	Shots    int // > 0: shared `once` schedule with exactly that many tokens; 0: plenty, run ends by end of ammo (passes: 1)
 	Result   map[string]interface{}
 	// rps-per-instance pools: RPS / Startup are the lists written under `rps:` / `startup:` ([] = one `once` part)
+	// Discard: discard_overflow: true, every gun's first shot takes FirstShotDelay (the instances fall >= 2 s behind)
+	Discard        bool
+	FirstShotDelay time.Duration
+	QueueSize      int // generic json provider: ammo-queue-size (0: default)
 	PerInstance bool
 	RPS         []interface{}
 	Startup     []interface{}
@@ -119,6 +140,18 @@ func (ps poolSpec) configMap() map[string]interface{} {
 	if ps.PerInstance {
 		pool["rps-per-instance"] = true
 	}
+	if ps.Discard {
+		pool["discard_overflow"] = true
+	}
+	if ps.AmmoType == "json" {
+		src := map[string]interface{}{"type": "file", "path": ps.AmmoFile}
+		am := map[string]interface{}{"type": "json", "source": src, "passes": 1}
+		if ps.QueueSize > 0 {
+			am["ammo-queue-size"] = ps.QueueSize
+		}
+		pool["ammo"] = am
+		pool["gun"] = map[string]interface{}{"type": "verif/tag"}
+	}
 	if ps.YAMLShape {
 		return map[string]interface{}{"pools": yamlShape([]interface{}{pool})}
 	}
@@ -140,6 +173,8 @@ func runPool(rec *grpctarget.Rec, ps poolSpec, limit time.Duration) (error, erro
 		return fmt.Errorf("decoded %d pools", len(conf.Engine.Pools)), nil
 	}
 	p := &conf.Engine.Pools[0]
+	grpctarget.FirstShotDelay = ps.FirstShotDelay
+	p.Provider = &grpctarget.RecProvider{Inner: p.Provider, Rec: rec}
 	p.NewGun = grpctarget.WrapGunFactory(rec, p.NewGun)
 	p.Aggregator = &grpctarget.RecAggregator{Inner: p.Aggregator, Rec: rec}
 	m := engine.Metrics{Request: &monitoring.Counter{}, Response: &monitoring.Counter{},
